@@ -27,7 +27,7 @@ ASSUMPTIONS = [
 ]
 REQUIRED = {'mirror_checks': 8000, 'source_updates': 2000, 'overrides': 300, 'relinks': 300, 'nested_links': 200, 'leak_checks': 3000, 'triggers': 100,
             'same_reference_reassigned': 20, 'overrides_from_trigger_callback': 50, 'equal_comparing_source_cases': 40,
-            'targets_sharing_parameter_objects': 40, 'assignments_from_on_init_method': 100, 'arraylike_source_values': 100, 'overrides_from_sync_callback': 40, 'falsy_source_cases': 30, 'source_side_observations': 1000}
+            'targets_sharing_parameter_objects': 40, 'assignments_from_on_init_method': 100, 'arraylike_source_values': 100, 'overrides_from_sync_callback': 40, 'falsy_source_cases': 30, 'source_side_observations': 1000, 'self_correcting_source_cases': 30}
 
 _st = {}
 _n = [0]
@@ -78,6 +78,15 @@ def setup(P):
 
         def __hash__(self):
             return 1
+
+    class ClampSrc(Src):
+        """A source that corrects what it is given: a dependent method of its own re-assigns the parameter it watches."""
+        @param.depends('v', watch=True)
+        def _clamp(self):
+            if isinstance(self.v, (int, float)) and self.v > 400:
+                self.v = 400.0
+
+    _st['ClampSrc'] = ClampSrc
 
     class EmptySrc(Src):
         """A container-like source that is currently empty: evaluates to False, still a perfectly good source."""
@@ -131,6 +140,9 @@ def make_ref(rng, srcs, tparam):
         if rng.random() < 0.5:
             return {'k': inner, 'c': 3}, (lambda: {'k': ev(), 'c': 3}), f'dict[{kind}]', deps
         return {'k': (inner, inner2)}, (lambda: {'k': (ev(), ev2())}), f'dict[({kind},{kind2})]', deps | deps2
+    if type(s) is _st.get('ClampSrc') and tparam in ('y', 'z') and rng.random() < 0.4:
+        # (a plain link to the parameter such a source corrects)
+        return s.param.v, (lambda: s.v), 'param', {(i, 'v')}
     if tparam == 'z' and rng.random() < 0.12:
         # the referenced parameter holds array-like objects
         return s.param.o, (lambda: s.o), 'param-arraylike', {(i, 'o')}
@@ -225,6 +237,9 @@ def run_case(idx, rng, P, rep):
     elif rng.random() < 0.15:
         Src = _st['EmptySrc']
         rep.count('falsy_source_cases')
+    elif rng.random() < 0.3:
+        Src = _st['ClampSrc']
+        rep.count('self_correcting_source_cases')
     srcs = [Src(v=fresh(), w=fresh()) for _ in range(3)]
     shared_pobj = rng.random() < 0.15
     if shared_pobj:
@@ -376,6 +391,8 @@ def run_case(idx, rng, P, rep):
             si = rng.randrange(len(srcs))
             pn = rng.choice(['v', 'w'])
             v = rng.choice([fresh(), fresh(), fresh(), -5.0, 500.0, 0.0])
+            if Src is _st['ClampSrc'] and pn == 'v' and rng.random() < 0.4:
+                v = rng.choice([500.0, 450.25])      # (what such a source corrects)
             if rng.random() < 0.1:
                 pn, v = 'op', rng.choice([operator.add, operator.mul, operator.sub])
             elif rng.random() < 0.12:
@@ -418,7 +435,10 @@ def run_case(idx, rng, P, rep):
                             flags['pending'] = True
                 # one source assignment reaches each linked parameter at most once
                 seen_once = set()
+                corrected = Src is _st['ClampSrc'] and pn == 'v' and isinstance(v, (int, float)) and v > 400
                 for dk in deliveries[n_deliv:]:
+                    if dk in seen_once and corrected and deliveries[n_deliv:].count(dk) == 2:
+                        continue        # (the source corrected itself: that is a second assignment of its own)
                     if dk in seen_once:
                         viol('linked-parameter-assigned-twice-by-one-source-update', f'source{si}.{pn} = {v!r}: target{dk[0]}.{dk[1]} was assigned '
                              f'{deliveries[n_deliv:].count(dk)} times')
